@@ -61,6 +61,9 @@ func dangling(q *ir.Program) bool {
 
 func oracle(c, res string) string {
 	f := strings.Split(c, " ")
+	if f[0] == "cli" {
+		return oracleCLI(c, res)
+	}
 	if f[0] == "cbuild" {
 		return c04c16.CheckConcurrent(c, res, func(p addchain.Program, s *ast.Chain) string {
 			chain, ops, _, err := c04c16.Interpret(s)
@@ -226,12 +229,20 @@ func oracle(c, res string) string {
 func main() {
 	lib.Main(lib.Prop{
 		ID:     "C04",
-		Gen:    c04c16.Gen([]string{"decompile", "build", "expand", "retranslate", "dangling"}, []string{"rebuild"}, 6),
+		Gen: func(tier string, r *lib.Rand, emit func(string)) {
+			genCLI(tier, r, emit)
+			c04c16.Gen([]string{"decompile", "build", "expand", "retranslate", "dangling"}, []string{"rebuild"}, 6)(tier, r, emit)
+		},
 		Neighbours: c04c16.Neighbours,
-		Run:    c04c16.Run,
+		Run: func(c string) string {
+			if strings.HasPrefix(c, "cli ") {
+				return runCLI(c)
+			}
+			return c04c16.Run(c)
+		},
 		Oracle: oracle,
 		Nontrivial: func(c, res string) bool {
-			if strings.HasPrefix(c, "cbuild ") {
+			if strings.HasPrefix(c, "cbuild ") || strings.HasPrefix(c, "cli ") {
 				return strings.HasPrefix(res, "ok ")
 			}
 			p := c04c16.ParseOps(strings.Split(c, " ")[1])
